@@ -444,9 +444,8 @@ class EtherCat(Protocol):
         if data is None:
             return unpack(fmt, ret)
         elif args:
-            if not isinstance(data, int):
-                data = len(data)
-            return unpack(fmt, ret[:-data]) + (ret[-data:],)
+            size = calcsize(fmt)
+            return unpack(fmt, ret[:size]) + (ret[size:],)
         else:
             return ret
 
